@@ -296,6 +296,7 @@ class St:
         self.env = {}                # let-bound names -> symbolic values
         self.events = []
         self.state_var = None        # state machine back end: pending `state = X`
+        self.bytevar = None          # name bound to the dispatch byte
 
     def copy(self):
         s = St()
@@ -308,6 +309,7 @@ class St:
         s.env = dict(self.env)
         s.events = list(self.events)
         s.state_var = self.state_var
+        s.bytevar = self.bytevar
         return s
 
 
@@ -343,6 +345,8 @@ class Model:
         self.root = None
         self.unsafe_items = 0
         self.macro_items = 0
+        self.lexv = defn.d.get('lex_param') or 'lex'
+        self.offv = self.ctxv = self.statev = None
         self._split(defn.body)
         self._find_states()
         self.paths = {}
@@ -387,7 +391,7 @@ class Model:
             if not is_path(c['func']) or c['func']['path'] not in self.states:
                 raise Unsupported('root call target')
             a = c['args']
-            if len(a) != 3 or not is_path(a[0], 'lex') or not method(a[1], 'offset', 'lex') or not (is_path(a[2]) and a[2]['path'].endswith('None')):
+            if len(a) != 3 or not is_path(a[0], self.lexv) or not method(a[1], 'offset', self.lexv) or not (is_path(a[2]) and a[2]['path'].endswith('None')):
                 raise Unsupported('root call arguments are not (lex, lex.offset(), None): %s' % [src(x) for x in a])
             self.root = c['func']['path']
             self.entry_ok = True
@@ -402,17 +406,19 @@ class Model:
                 if l['pat'].get('p') != 'ident':
                     raise Unsupported('prologue pattern')
                 names[l['pat']['name']] = l['init']
-            if set(names) != {'state', 'offset', 'context'}:
-                raise Unsupported('prologue variables %s' % sorted(names))
-            if not method(names['offset'], 'offset', 'lex'):
-                raise Unsupported('offset is not initialised with lex.offset()')
-            if not (is_path(names['context']) and names['context']['path'].endswith('None')):
-                raise Unsupported('context is not initialised with None')
-            if not is_path(names['state']) or not names['state']['path'].startswith('LogosState::'):
-                raise Unsupported('initial state')
-            self.root = names['state']['path'].split('::')[-1]
+            # roles by initialiser, not by name
+            for n, init in names.items():
+                if method(init, 'offset', self.lexv):
+                    self.offv = n
+                elif is_path(init) and init['path'].endswith('None'):
+                    self.ctxv = n
+                elif is_path(init) and init['path'].startswith('LogosState::'):
+                    self.statev = n
+            if None in (self.offv, self.ctxv, self.statev) or len(names) != 3:
+                raise Unsupported('prologue does not initialise (state, offset = lex.offset(), context = None): %s' % sorted(names))
+            self.root = names[self.statev]['path'].split('::')[-1]
             body = loops[0]['e']['body']
-            if len(body) != 1 or body[0].get('s') != 'expr' or body[0]['e'].get('k') != 'match' or not is_path(body[0]['e']['expr'], 'state'):
+            if len(body) != 1 or body[0].get('s') != 'expr' or body[0]['e'].get('k') != 'match' or not is_path(body[0]['e']['expr'], self.statev):
                 raise Unsupported('loop body is not `match state {..}`')
             for arm in body[0]['e']['arms']:
                 p = arm['pat']
@@ -436,11 +442,14 @@ class Model:
         f = self.states[name]
         if self.backend == 'tail':
             ps = [p.get('name') for p in f['params']]
-            if ps != ['lex', 'offset', 'context']:
+            if len(ps) != 3 or None in ps:
                 raise Unsupported('state fn parameters %s' % ps)
+            roles = tuple(ps)
+        else:
+            roles = (self.lexv, self.offv, self.ctxv)
         local_consts = dict(self.consts)
         self.state_consts[name] = local_consts
-        ctx = ExecCtx(self, name, local_consts)
+        ctx = ExecCtx(self, name, local_consts, roles)
         res = ctx.block(f['body'], st)
         paths = []
         for s2, out in res:
@@ -452,10 +461,12 @@ class Model:
 
 
 class ExecCtx:
-    def __init__(self, model, state, consts):
+    def __init__(self, model, state, consts, roles):
         self.m = model
         self.state = state
         self.consts = consts
+        self.lexv, self.offv, self.ctxv = roles
+        self.statev = model.statev
         self.local_enums = {}
         self.local_fns = {}
         self.fastloop = None
@@ -507,7 +518,7 @@ class ExecCtx:
         name = p['name']
         init = s['init']
         st = st.copy()
-        if method(init, 'read', 'lex'):
+        if method(init, 'read', self.lexv):
             off = self.offset_expr(init['args'][0], st) if len(init['args']) == 1 else None
             if off is None:
                 raise Unsupported('read argument')
@@ -515,26 +526,26 @@ class ExecCtx:
             st.events.append(('read', ty, off))
             st.env[name] = ('read', ty, off, len(st.events) - 1)
             return [(st, None)]
-        if init.get('k') == 'index' and is_path(init['e']) and init['e']['path'] in self.consts and self.is_byte_index(init['idx']):
+        if init.get('k') == 'index' and is_path(init['e']) and init['e']['path'] in self.consts and self.is_byte_index(init['idx'], st):
             st.env[name] = ('lookup', init['e']['path'])
             return [(st, None)]
         if init.get('k') == 'call' and is_path(init['func'], '_get_action'):
             a = init['args']
-            if len(a) != 3 or not is_path(a[0], 'lex') or not is_path(a[1], 'offset') or not is_path(a[2], 'context'):
+            if len(a) != 3 or not is_path(a[0], self.lexv) or not is_path(a[1], self.offv) or not is_path(a[2], self.ctxv):
                 raise Unsupported('_get_action arguments %s' % [src(x) for x in a])
             st.events.append(('get_action', st.offset, st.context))
             st.env[name] = ('action',)
             return [(st, None)]
         raise Unsupported('let %s = %s in state %s' % (name, src(init), self.state))
 
-    def is_byte_index(self, e):
-        return e.get('k') == 'cast' and is_path(e['e'], 'byte')
+    def is_byte_index(self, e, st):
+        return st.bytevar is not None and e.get('k') == 'cast' and is_path(e['e'], st.bytevar)
 
     def offset_expr(self, e, st):
         """symbolic value of an expression of usize type built from the offset variable"""
-        if is_path(e, 'offset'):
+        if is_path(e, self.offv):
             return st.offset
-        if method(e, 'offset', 'lex') and not e['args']:
+        if method(e, 'offset', self.lexv) and not e['args']:
             return Off('start')
         if e.get('k') == 'bin' and e['op'] in ('+', '-'):
             l = self.offset_expr(e['l'], st)
@@ -545,7 +556,7 @@ class ExecCtx:
 
     def expr_stmt(self, e, st):
         k = e.get('k')
-        if k == 'bin' and e['op'] in ('+=', '-=') and is_path(e['l'], 'offset'):
+        if k == 'bin' and e['op'] in ('+=', '-=') and is_path(e['l'], self.offv):
             c = lit_int(e['r'])
             if c is None:
                 raise Unsupported('offset %s %s' % (e['op'], src(e['r'])))
@@ -556,7 +567,7 @@ class ExecCtx:
             return [(st, None)]
         if k == 'assign':
             return self.assign(e, st)
-        if k == 'method' and is_path(e['recv'], 'lex'):
+        if k == 'method' and is_path(e['recv'], self.lexv):
             return self.lex_call(e, st)
         if k == 'if':
             return self.if_(e, st)
@@ -579,14 +590,12 @@ class ExecCtx:
             st = st.copy()
             st.state_var = None
             return [(st, ('goto', tgt, st.offset, st.context))]
-        if k == 'call' and is_path(e['func'], 'loop_test'):
-            raise Unsupported('stray loop_test call')
         raise Unsupported('expression statement %s (%s) in state %s' % (k, src(e)[:60], self.state))
 
     def assign(self, e, st):
         l, r = e['l'], e['r']
         st = st.copy()
-        if is_path(l, 'context'):
+        if is_path(l, self.ctxv):
             if is_path(r) and r['path'].endswith('None'):
                 st.context = None
             elif r.get('k') == 'call' and is_path(r['func']) and r['func']['path'].endswith('Some') and len(r['args']) == 1 and is_path(r['args'][0]) and r['args'][0]['path'].startswith('LogosLeaf::'):
@@ -595,14 +604,14 @@ class ExecCtx:
                 raise Unsupported('context = %s' % src(r))
             st.events.append(('ctx', st.context))
             return [(st, None)]
-        if is_path(l, 'offset'):
+        if is_path(l, self.offv):
             v = self.offset_expr(r, st)
             if v is None:
                 raise Unsupported('offset = %s' % src(r))
             st.offset = v
             st.events.append(('setoff', v))
             return [(st, None)]
-        if is_path(l, 'state') and self.sm:
+        if self.sm and is_path(l, self.statev):
             if is_path(r) and r['path'].startswith('LogosState::'):
                 st.state_var = r['path'].split('::')[-1]
             elif is_path(r) and r['path'] in st.env and st.env[r['path']][0] == 'bound_state':
@@ -635,7 +644,7 @@ class ExecCtx:
             f = e['func']['path']
             if not self.sm and f in self.m.states:
                 a = e['args']
-                if len(a) != 3 or not is_path(a[0], 'lex') or not is_path(a[1], 'offset') or not is_path(a[2], 'context'):
+                if len(a) != 3 or not is_path(a[0], self.lexv) or not is_path(a[1], self.offv) or not is_path(a[2], self.ctxv):
                     raise Unsupported('transition arguments %s: a state must be entered with the live (lex, offset, context)' % [src(x) for x in a])
                 return ('goto', f, st.offset, st.context)
             if f.endswith('Some') and len(e['args']) == 1:
@@ -648,8 +657,10 @@ class ExecCtx:
                         a = inner['args'][0]
                         if a.get('k') == 'path':
                             return ('error', a['path'])
-                        if a.get('k') == 'call' and is_path(a['func'], '_make_error') and len(a['args']) == 1 and is_path(a['args'][0], 'lex'):
+                        if a.get('k') == 'call' and is_path(a['func'], '_make_error') and len(a['args']) == 1 and is_path(a['args'][0], self.lexv):
                             return ('default_error',)
+        if e.get('k') == 'call' and e['func'].get('k') == 'path' and e['func']['path'].split('::')[-1] == 'lex' and len(e['args']) == 1 and is_path(e['args'][0], self.lexv):
+            return ('reenter',)     # recursive call of Logos::lex (reported by the stack / restart rules)
         raise Unsupported('return %s' % src(e))
 
     # ---- conditionals ----
@@ -678,14 +689,15 @@ class ExecCtx:
             if p.get('p') == 'tuplestruct' and p['path'].endswith('Some') and len(p['elems']) == 1 and p['elems'][0].get('p') == 'ident':
                 var = p['elems'][0]['name']
                 val = st.env.get(ex['path']) if is_path(ex) else None
-                if val is None and method(ex, 'read', 'lex'):
+                if val is None and method(ex, 'read', self.lexv):
                     raise Unsupported('inline read in if-let')
                 if val is None:
                     raise Unsupported('if let Some(%s) = %s' % (var, src(ex)))
                 if val[0] == 'read':
-                    if val[1] != '::core::primitive::u8' or var != 'byte':
+                    if val[1] != '::core::primitive::u8':
                         raise Unsupported('dispatch read of type %s bound to %s' % (val[1], var))
                     a = st.copy()
+                    a.bytevar = var
                     a.bytes = ALL
                     a.eoi = False
                     a.events.append(('some', val[3]))
@@ -711,20 +723,20 @@ class ExecCtx:
                             res.append((s2, True))
                     return res
             raise Unsupported('if-let pattern %s' % p.get('p'))
-        if method(cond, 'is_prefix', 'lex'):
+        if method(cond, 'is_prefix', self.lexv):
             a, b = st.copy(), st.copy()
             a.prefix, b.prefix = True, False
             a.events.append(('prefix?', True))
             return [(a, True), (b, False)]
-        if cond.get('k') == 'bin' and cond['op'] == '==' and ((method(cond['l'], 'offset', 'lex') and is_path(cond['r'], 'offset')) or (method(cond['r'], 'offset', 'lex') and is_path(cond['l'], 'offset'))):
+        if cond.get('k') == 'bin' and cond['op'] == '==' and ((method(cond['l'], 'offset', self.lexv) and is_path(cond['r'], self.offv)) or (method(cond['r'], 'offset', self.lexv) and is_path(cond['l'], self.offv))):
             a, b = st.copy(), st.copy()
             a.at_start, b.at_start = True, False
             a.events.append(('at_start?', st.offset))
             return [(a, True), (b, False)]
-        if mentions(cond, 'byte'):
+        if st.bytevar is not None and mentions(cond, st.bytevar):
             if st.bytes is None:
                 raise Unsupported('byte condition outside the Some(byte) branch')
-            yes = byteset(cond, self.consts, st.bytes)
+            yes = byteset(cond, self.consts, st.bytes, bytevar=st.bytevar)
             res = []
             if yes:
                 a = st.copy()
@@ -741,7 +753,7 @@ class ExecCtx:
     def match(self, e, st):
         scrut = e['expr']
         # tail-call jump table: match TABLE[byte as usize] { LogosNextState::X => {..}, LogosNextState::___ => {} }
-        if scrut.get('k') == 'index' and is_path(scrut['e']) and scrut['e']['path'] in self.consts and self.is_byte_index(scrut['idx']):
+        if scrut.get('k') == 'index' and is_path(scrut['e']) and scrut['e']['path'] in self.consts and self.is_byte_index(scrut['idx'], st):
             tbl = self.consts[scrut['e']['path']]
             if st.bytes is None:
                 raise Unsupported('jump table outside the Some(byte) branch')
@@ -801,27 +813,43 @@ class ExecCtx:
     def fast_loop(self, e, st):
         """'fast_loop: { while let Some(arr) = lex.read::<&[u8; N]>(offset) { if test(arr[i]) { offset += i; break 'fast_loop; }.. offset += N; }
                          while let Some(byte) = lex.read::<u8>(offset) { if test(byte) { break 'fast_loop; } offset += 1; } }"""
-        if 'loop_test' not in self.local_fns:
-            raise Unsupported('fast loop without loop_test')
-        lt = self.local_fns['loop_test']
-        if [p.get('name') for p in lt['params']] != ['byte'] or len(lt['body']) != 1 or lt['body'][0].get('s') != 'expr':
-            raise Unsupported('loop_test shape')
-        stop = byteset(lt['body'][0]['e'], self.consts)            # bytes that END the loop
-        loopset = ALL - stop
         body = e['body']
-        whiles = [s['e'] for s in body if s.get('s') == 'expr' and s['e'].get('k') == 'while']
+        whiles = [s_['e'] for s_ in body if s_.get('s') == 'expr' and s_['e'].get('k') == 'while']
         if len(whiles) != len(body) or len(whiles) != 2:
             raise Unsupported('fast loop body is not two while loops')
+        # the loop test is the local predicate called on the bytes (role by use, not by name)
+        tests = set()
+
+        def find_tests(x):
+            if isinstance(x, dict):
+                if x.get('k') == 'call' and is_path(x['func']) and x['func']['path'] in self.local_fns:
+                    tests.add(x['func']['path'])
+                for v in x.values():
+                    find_tests(v)
+            elif isinstance(x, list):
+                for v in x:
+                    find_tests(v)
+        find_tests(whiles)
+        if len(tests) != 1:
+            raise Unsupported('fast loop without a single local loop test (%s)' % sorted(tests))
+        test = list(tests)[0]
+        lt = self.local_fns[test]
+        if len(lt['params']) != 1 or lt['params'][0].get('name') is None or len(lt['body']) != 1 or lt['body'][0].get('s') != 'expr':
+            raise Unsupported('loop test shape')
+        tvar = lt['params'][0]['name']
+        stop = byteset(lt['body'][0]['e'], self.consts, bytevar=tvar)            # bytes that END the loop
+        loopset = ALL - stop
         info = dict(loopset=loopset, reads=[], chunk=None, violations=[])
         # chunk loop
         w = whiles[0]
         c = w['cond']
-        if c.get('k') != 'let' or not method(c['expr'], 'read', 'lex') or len(c['expr']['args']) != 1 or not is_path(c['expr']['args'][0], 'offset'):
+        if c.get('k') != 'let' or not method(c['expr'], 'read', self.lexv) or len(c['expr']['args']) != 1 or not is_path(c['expr']['args'][0], self.offv):
             raise Unsupported('chunk loop header')
         ty = (c['expr']['turbofish'] or '').replace(' ', '')
         mm = re.fullmatch(r'&\[::core::primitive::u8;(\d+)usize\]', ty)
-        if not mm or c['pat'].get('p') != 'tuplestruct' or c['pat']['elems'][0].get('name') != 'arr':
+        if not mm or c['pat'].get('p') != 'tuplestruct' or len(c['pat']['elems']) != 1 or c['pat']['elems'][0].get('name') is None:
             raise Unsupported('chunk read type %s' % ty)
+        arr = c['pat']['elems'][0]['name']
         n = int(mm.group(1))
         info['chunk'] = n
         stmts = w['body']
@@ -832,10 +860,10 @@ class ExecCtx:
             ok = ie is not None and ie.get('k') == 'if' and ie['else'] is None
             if ok:
                 cc = ie['cond']
-                ok = cc.get('k') == 'call' and is_path(cc['func'], 'loop_test') and len(cc['args']) == 1 and cc['args'][0].get('k') == 'index' and is_path(cc['args'][0]['e'], 'arr')
+                ok = cc.get('k') == 'call' and is_path(cc['func'], test) and len(cc['args']) == 1 and cc['args'][0].get('k') == 'index' and is_path(cc['args'][0]['e'], arr)
                 idx = lit_int(cc['args'][0]['idx']) if ok else None
                 th = ie['then']
-                ok = ok and len(th) == 2 and th[0].get('s') == 'expr' and th[0]['e'].get('k') == 'bin' and th[0]['e']['op'] == '+=' and is_path(th[0]['e']['l'], 'offset') \
+                ok = ok and len(th) == 2 and th[0].get('s') == 'expr' and th[0]['e'].get('k') == 'bin' and th[0]['e']['op'] == '+=' and is_path(th[0]['e']['l'], self.offv) \
                     and th[1].get('s') == 'expr' and th[1]['e'].get('k') == 'break' and th[1]['e']['label'] == 'fast_loop'
                 adv = lit_int(th[0]['e']['r']) if ok else None
                 if ok:
@@ -849,24 +877,25 @@ class ExecCtx:
             if not ok:
                 raise Unsupported('chunk loop statement %d' % i)
         last = stmts[n].get('e') if stmts[n].get('s') == 'expr' else None
-        if not (last and last.get('k') == 'bin' and last['op'] == '+=' and is_path(last['l'], 'offset')):
+        if not (last and last.get('k') == 'bin' and last['op'] == '+=' and is_path(last['l'], self.offv)):
             raise Unsupported('chunk loop does not end with offset += N')
         if lit_int(last['r']) != n:
             info['violations'].append('after a chunk of %d looping bytes the offset advances by %s' % (n, lit_int(last['r'])))
         # byte loop
         w = whiles[1]
         c = w['cond']
-        if c.get('k') != 'let' or not method(c['expr'], 'read', 'lex') or not is_path(c['expr']['args'][0], 'offset') or (c['expr']['turbofish'] or '').replace(' ', '') != '::core::primitive::u8' or c['pat']['elems'][0].get('name') != 'byte':
+        if c.get('k') != 'let' or not method(c['expr'], 'read', self.lexv) or not is_path(c['expr']['args'][0], self.offv) or (c['expr']['turbofish'] or '').replace(' ', '') != '::core::primitive::u8' or c['pat']['elems'][0].get('name') is None:
             raise Unsupported('byte loop header')
+        bvar = c['pat']['elems'][0]['name']
         stmts = w['body']
         ok = len(stmts) == 2 and stmts[0].get('s') == 'expr' and stmts[0]['e'].get('k') == 'if' and stmts[0]['e']['else'] is None
         if ok:
             ie = stmts[0]['e']
             cc = ie['cond']
-            ok = cc.get('k') == 'call' and is_path(cc['func'], 'loop_test') and len(cc['args']) == 1 and is_path(cc['args'][0], 'byte') \
+            ok = cc.get('k') == 'call' and is_path(cc['func'], test) and len(cc['args']) == 1 and is_path(cc['args'][0], bvar) \
                 and len(ie['then']) == 1 and ie['then'][0].get('s') == 'expr' and ie['then'][0]['e'].get('k') == 'break' and ie['then'][0]['e']['label'] == 'fast_loop'
             adv = stmts[1].get('e') if stmts[1].get('s') == 'expr' else None
-            ok = ok and adv is not None and adv.get('k') == 'bin' and adv['op'] == '+=' and is_path(adv['l'], 'offset')
+            ok = ok and adv is not None and adv.get('k') == 'bin' and adv['op'] == '+=' and is_path(adv['l'], self.offv)
             if ok and lit_int(adv['r']) != 1:
                 info['violations'].append('the byte loop advances by %s per looping byte' % lit_int(adv['r']))
         if not ok:
